@@ -4,6 +4,7 @@
 package main
 
 import (
+	"fmt"
 	"math/rand"
 )
 
@@ -72,6 +73,11 @@ func (m *monitor) history(idx int) {
 	c := w.newClient(&storeSpec{fin: boot, opt: boot, cur: w.committeeAt(base, nC, base).z})
 	origin := map[string]any{"stream": "history", "index": idx, "mode": mode, "committees": nC, "steps": steps}
 	startPeriod := period(boot.Slot)
+	// Monitor-side provenance, independent of the store's own bookkeeping: for which period did the store
+	// LEARN each committee it holds (bootstrap: the boot period; a next committee: the period after the
+	// attested header of the update that delivered it). "The committee the store holds for that period"
+	// is decided against this record, so a committee learnt for one period and used for another is seen.
+	learntFor := map[uint64]h32{startPeriod: snapshot(&c.Store).Cur.root()}
 
 	for step := 0; step < steps; step++ {
 		F := uint64(c.Store.FinalizedHeader.Slot)
@@ -174,6 +180,12 @@ func (m *monitor) history(idx int) {
 			}
 			move += "+signed-by-held-committee"
 		}
+		if move == "cross" && rng.Intn(4) == 0 {
+			// signed by the committee of the store's own period: only a store that holds that committee for
+			// the following period as well (which it never learnt) could accept it
+			p.signer = w.committeeAt(base, nC, P)
+			move += "+signed-by-current-committee"
+		}
 		if corr != "none" && (!corrApplies(corr, kind) || !w.corruptPre(rng, corr, p, base, nC)) {
 			corr = "none"
 		}
@@ -183,10 +195,34 @@ func (m *monitor) history(idx int) {
 		}
 		d := caseDesc{"history:" + move, kind, p.fork, part, corr}
 		org := map[string]any{"history": origin, "step": step}
+		pre := snapshot(&c.Store)
 		accepted := m.judge(org, d, c, u, direct)
 		r.Count("history_steps", 1)
+		if mode == "verified" && accepted {
+			sp, stp := period(u.SigSlot), period(pre.Fin.Slot)
+			var used *refCommittee
+			switch {
+			case sp == stp:
+				used = pre.Cur
+			case sp == stp+1:
+				used = pre.Next
+			}
+			if used != nil {
+				r.Count("provenance_checked_accepts", 1)
+				if want, ok := learntFor[sp]; !ok || want != used.root() {
+					r.Violation("verify-accepts:committee-learnt-for-another-period:"+u.Kind,
+						fmt.Sprintf("an update with signature period %d was verified against a committee the store never learnt for that period (store period %d, next known %v, committee for period %d learnt: %v); case %s",
+							sp, stp, pre.Next != nil, sp, ok, d),
+						map[string]any{"origin": org, "case": d, "store": storeBrief(pre), "update": updBrief(u), "signature_period": sp, "store_period": stp,
+							"periods_the_store_learnt_a_committee_for": len(learntFor)})
+				}
+			}
+		}
 		if mode == "unconditional" || accepted {
 			m.applyChecked(mode, org, d, c, u, direct)
+		}
+		if post := snapshot(&c.Store); post.Next != nil && !post.Next.equal(pre.Next) && u.hasCommittee() {
+			learntFor[period(u.Att.Slot)+1] = post.Next.root()
 		}
 	}
 	r.Count("histories_run", 1)
